@@ -3,6 +3,7 @@ package props
 import (
 	"fmt"
 	"github.com/ElrondNetwork/elrond-vm-common/parsers"
+	"math"
 	"math/big"
 	"runtime"
 	"sort"
@@ -528,6 +529,12 @@ func runC19(c *harness.Ctx) {
 			h := runHistory(G2, func(g int, rec *recorder, rg *harness.Rand) {
 				for k := 0; k < per2; k++ {
 					x := atomic.AddInt64(&uid, 1)
+					switch k % 3 {
+					case 1:
+						x = x - math.MaxInt64 // near the minimum (negated below: near the maximum)
+					case 2:
+						x = -x
+					}
 					if rg.Bool() {
 						rec.do(regIn{Op: "set", Arg: -x}, func() interface{} { v.Set(-x); return regOut{} })
 					} else {
@@ -542,6 +549,9 @@ func runC19(c *harness.Ctx) {
 			h := runHistory(G2, func(g int, rec *recorder, rg *harness.Rand) {
 				for k := 0; k < per2; k++ {
 					x := atomic.AddInt64(&uid, 1) & 0xffffffff
+					if k%2 == 1 {
+						x |= 0x80000000
+					}
 					if rg.Bool() {
 						rec.do(regIn{Op: "set", Arg: x}, func() interface{} { v.Set(uint32(x)); return regOut{} })
 					} else {
@@ -556,6 +566,9 @@ func runC19(c *harness.Ctx) {
 			h := runHistory(G2, func(g int, rec *recorder, rg *harness.Rand) {
 				for k := 0; k < per2; k++ {
 					x := atomic.AddInt64(&uid, 1) + 1<<40
+					if k%2 == 1 {
+						x |= -1 << 63 // values >= 2^63 (the int64 view of the same 64 bits is negative)
+					}
 					if rg.Bool() {
 						rec.do(regIn{Op: "set", Arg: x}, func() interface{} { v.Set(uint64(x)); return regOut{} })
 					} else {
@@ -1061,6 +1074,14 @@ func c19Stress(c *harness.Ctx) {
 				sh.Factory.GasScheduleChange(world.CloneGasMap(SA))
 			}
 			atomic.AddInt64(&changes, 1)
+			if i%7 == 3 {
+				// the setter is public: a nil configuration is ignored by every function
+				for _, name := range AllFuncs {
+					if fn, err := sh.Container.Get(name); err == nil {
+						fn.SetNewGasConfig(nil)
+					}
+				}
+			}
 			time.Sleep(200 * time.Microsecond)
 		}
 	}()
